@@ -201,11 +201,14 @@ def cases(tier):
                "payload": {"mode": "pair", "k1": k1, "k2": k2, "form": "ref+inline", "req": [False, False], "default": "none", "pname": "itemCount",
                            "collide": "item_count"}}
     for shape in ("chain3", "diamond", "disjoint3", "selfref-chain", "alias-of-composed-parent", "alias-of-alias", "inline-allof-in-properties", "single-ref+own-properties", "single-ref+required-only", "single-ref+closed", "single-ref+member-requires-inherited",
+                  "required-only-ref-member", "required-only-ref-member-last", "nested-inline-allof", "nested-inline-allof-3-levels",
                   "empty-parent:type-only", "empty-parent:addl-only", "empty-parent:empty-properties", "empty-parent:middle-of-chain",
                   "failing-sibling:type-conflict", "failing-sibling:non-object-member", "failing-sibling:dangling"):
         names = {"chain3": ["Base", "Mid", "M"], "diamond": ["Base", "Left", "Right", "M"], "disjoint3": ["P1", "P2", "P3", "M"],
                  "selfref-chain": ["Base", "Mid", "M"], "alias-of-composed-parent": ["Base", "Mid", "Alias", "M"],
-                 "alias-of-alias": ["Base", "Alias", "Alias2", "M"], "inline-allof-in-properties": ["Addr", "Event", "M"]}.get(shape, ["Base", "Bad", "M", "User"] if shape.startswith("failing-sibling") else ["Base", "M", "User"])
+                 "alias-of-alias": ["Base", "Alias", "Alias2", "M"], "inline-allof-in-properties": ["Addr", "Event", "M"],
+                 "required-only-ref-member": ["ReqOnly", "Base", "M"], "required-only-ref-member-last": ["ReqOnly", "Base", "M"],
+                 "nested-inline-allof": ["Base", "Other", "M"], "nested-inline-allof-3-levels": ["Base", "Other", "M"]}.get(shape, ["Base", "Bad", "M", "User"] if shape.startswith("failing-sibling") else ["Base", "M", "User"])
         for order in itertools.permutations(names):
             if tier == "quick" and shape == "diamond" and order[0] not in ("M", "Base"):
                 continue
@@ -439,6 +442,28 @@ def _shape(p):
                      "hist": {"type": "array", "items": {"allOf": [ref("Event"), {"type": "object", "required": ["what"], "properties": {"what": {"type": "string"}}}]}}}}}
         expect = {"note": ("model", False), "ship": ("model", False), "hist": (("array", "model"), False)}
         inst = {"note": {"t": "x"}, "ship": {"street": "s", "zip": "z", "fast": True}, "hist": [{"at": "2020-01-02", "what": "w"}, {"what": "v"}]}
+    elif shape.startswith("required-only-ref-member"):
+        # a REFERENCED member that only lists `required` for properties the other members declare (referenced / inline), first or last
+        members = [ref("ReqOnly"), ref("Base"), {"type": "object", "properties": {"own": {"type": "boolean"}, "free": {"type": "string"}}}]
+        if shape.endswith("-last"):
+            members = members[1:] + members[:1]
+        comps = {"ReqOnly": {"type": "object", "required": ["label", "own"]},
+                 "Base": {"type": "object", "required": ["id"], "properties": {"id": {"type": "integer"}, "label": {"type": "string"}}},
+                 "M": {"allOf": members}}
+        expect = {"id": ("int", True), "label": ("str", True), "own": ("bool", True), "free": ("str", False)}
+        inst = {"id": 1, "label": "l", "own": True, "free": "f"}
+    elif shape.startswith("nested-inline-allof"):
+        # an inline member that is itself composed (allOf inside an allOf member), two and three levels deep
+        inner = {"allOf": [ref("Base"), {"type": "object", "required": ["n"], "properties": {"n": {"type": "integer"}}}]}
+        if shape.endswith("3-levels"):
+            inner = {"allOf": [inner, ref("Other"), {"required": ["label"]}]}
+        else:
+            inner["allOf"].append(ref("Other"))
+        comps = {"Base": {"type": "object", "required": ["id"], "properties": {"id": {"type": "integer"}, "label": {"type": "string"}}},
+                 "Other": {"type": "object", "properties": {"o": {"type": "string", "format": "date"}}},
+                 "M": {"allOf": [inner, {"type": "object", "properties": {"own": {"type": "boolean"}}}]}}
+        expect = {"id": ("int", True), "label": ("str", shape.endswith("3-levels")), "n": ("int", True), "o": ("date", False), "own": ("bool", False)}
+        inst = {"id": 1, "label": "l", "n": 2, "o": "2020-01-02", "own": True}
     elif shape == "alias-of-alias":
         comps = {"Base": {"type": "object", "required": ["id"], "properties": {"id": {"type": "integer"}, "label": {"type": "string"}}},
                  "Alias": {"allOf": [ref("Base")]}, "Alias2": {"oneOf": [ref("Alias")]},
